@@ -26,8 +26,13 @@ pub struct PaddingFactory {
     md5: String,
 }
 
-/// Global padding factory
-static DEFAULT_FACTORY: std::sync::OnceLock<Arc<PaddingFactory>> = std::sync::OnceLock::new();
+/// Built-in padding factory (created on first use)
+static BUILTIN_FACTORY: std::sync::OnceLock<Arc<PaddingFactory>> = std::sync::OnceLock::new();
+
+/// Padding factory installed by `update_default` (a scheme pushed by a server).
+/// It replaces the built-in one as the process-wide default and can be replaced again.
+static UPDATED_FACTORY: std::sync::RwLock<Option<Arc<PaddingFactory>>> =
+    std::sync::RwLock::new(None);
 
 impl PaddingFactory {
     /// Create a new PaddingFactory from raw scheme bytes
@@ -57,7 +62,10 @@ impl PaddingFactory {
     /// with creating a new factory. This returns a shared singleton instance.
     #[allow(clippy::should_implement_trait)]
     pub fn default() -> Arc<Self> {
-        DEFAULT_FACTORY
+        if let Some(factory) = Self::updated() {
+            return factory;
+        }
+        BUILTIN_FACTORY
             .get_or_init(|| {
                 Arc::new(
                     Self::new(DEFAULT_PADDING_SCHEME.as_bytes())
@@ -67,12 +75,21 @@ impl PaddingFactory {
             .clone()
     }
 
+    /// The factory installed by the most recent successful `update_default`, if any
+    pub fn updated() -> Option<Arc<Self>> {
+        UPDATED_FACTORY
+            .read()
+            .unwrap_or_else(|e| e.into_inner())
+            .clone()
+    }
+
     /// Update the default padding factory
+    ///
+    /// May be called any number of times, also after `default()` has been used.
     pub fn update_default(raw_scheme: &[u8]) -> Result<(), String> {
         let factory = Arc::new(Self::new(raw_scheme)?);
-        DEFAULT_FACTORY
-            .set(factory)
-            .map_err(|_| "failed to update default factory".to_string())
+        *UPDATED_FACTORY.write().unwrap_or_else(|e| e.into_inner()) = Some(factory);
+        Ok(())
     }
 
     /// Get the stop value
